@@ -61,7 +61,7 @@ class CGenerator:
 
     def visit_ArrayRef(self, n: c_ast.ArrayRef) -> str:
         arrref = self._parenthesize_unless_simple(n.name)
-        return arrref + "[" + self.visit(n.subscript) + "]"
+        return arrref + "[" + self._visit_full_expr(n.subscript) + "]"
 
     def visit_StructRef(self, n: c_ast.StructRef) -> str:
         # A constant must be parenthesized: '5.x' would lex as a float.
@@ -81,7 +81,7 @@ class CGenerator:
             case "sizeof":
                 # Always parenthesize the argument of sizeof since it can be
                 # a name.
-                return f"sizeof({self.visit(n.expr)})"
+                return f"sizeof({self._visit_full_expr(n.expr)})"
             case "p++":
                 operand = self._parenthesize_unless_simple(n.expr)
                 return f"{operand}++"
